@@ -143,7 +143,7 @@ def c07_corruption(kind: int, k: int, s: int) -> bool:
     if not THOROUGH and (k + kind) % 3 != 0:
         reached()
         return True                     # quick tier: every third position per corruption kind (offset by kind)
-    s = pick(s, 0, NS) if (kind == 4 and THOROUGH) else (k % NS)
+    s = (k + 3 * pick(s, 0, 5)) % NS if (kind == 4 and THOROUGH) else (k % NS)
     with concrete():
         toks = corrupt(KINDS[kind], k, s)
         wf = well_formed(toks, relaxed=True)
